@@ -1,1 +1,7 @@
 import SwcVerif.Props.C17
+#print axioms C17.init_inv
+#print axioms C17.greedy_step
+#print axioms C17.step_inv
+#print axioms C17.spanning
+#print axioms C17.branching_limit
+#print axioms C17.prim_step_partial
